@@ -284,9 +284,13 @@ def rule_guard(ctx) -> RuleResult:
                 ok = True
     # the target workspace arrives through kwargs: they must be merged into `attributes` before the test reads attributes.get("workspace")
     body = et.node.body
-    upd = [i for i, st_ in enumerate(body) if isinstance(st_, ast.Expr) and unparse(st_.value).startswith("attributes.update(")]
+    # role: the attribute dictionary = the local that is splatted into the constructor call that is returned
+    from ..roles import canon
+    attr_names = {unparse(k.value) for r in ast.walk(et.node) if isinstance(r, ast.Return) and isinstance(r.value, ast.Call) for k in r.value.keywords if k.arg is None}
+    am = {nm: "attributes" for nm in attr_names}
+    upd = [i for i, st_ in enumerate(body) if isinstance(st_, ast.Expr) and canon(st_.value, am).startswith("attributes.update(")]
     tst = [i for i, st_ in enumerate(body) if isinstance(st_, ast.If) and "_types" in unparse(st_.test)]
-    ok = ok and bool(upd) and bool(tst) and upd[0] < tst[0] and "attributes.get('workspace'" in unparse(body[tst[0]].test)
+    ok = ok and bool(upd) and bool(tst) and upd[0] < tst[0] and "attributes.get('workspace'" in canon(body[tst[0]].test, am)
     res.inst("EntityType.copy drops the uid when it is taken in the target workspace's types (kwargs merged first)", nontrivial=True, ok=ok)
     if not ok:
         res.find("EntityType", "copy", "uid kept although the target workspace may hold that type uid", et.where,
